@@ -663,3 +663,134 @@ DIAGRAMS = {"marginal": d_marginal, "invreliability": d_invreliability, "droc": 
             "murphy": d_murphy, "economicvalue": d_economicvalue, "bsdecomp": d_bsdecomp, "igncontrib": d_igncontrib,
             "autocorr": d_autocorr, "autocov": d_autocov, "timeseries": d_timeseries, "meteo": d_meteo, "against": d_against,
             "change": d_change, "map": d_map, "rank": d_rank, "impact": d_impact, "fss": d_fss}
+
+
+def _agg_pairs(ds, k, axis, agg="mean"):
+    sl = refmodel.slices(ds, k, [("obs",), ("fcst",)], axis)
+    xs = [refmetrics.aggregate(agg, [c[0] for c in cs]) if cs else NAN for lab, cs in sl]
+    ys = [refmetrics.aggregate(agg, [c[1] for c in cs]) if cs else NAN for lab, cs in sl]
+    return xs, ys, sl
+
+
+def _nansorted(v):
+    return sorted([x for x in v if x == x]) + [x for x in v if x != x]
+
+
+def d_qq_x(ctx, rng, ds, paths, kind):
+    """qq with -x: one point per slice = aggregated obs / fcst, each sorted"""
+    c = _c16()
+    axis = rng.choice(["leadtime", "time", "location", "month"])
+    agg = rng.choice([None, "median", "max"])
+    argv = ["-m", "qq", "-x", axis] + (["-agg", agg] if agg else [])
+    fig, case = c.run(ctx, paths, argv, ds)
+    if fig is None:
+        return
+    F = len(ds["inputs"])
+    distinct = 0
+    for k in range(F):
+        ls = fig.lines(0, ds["inputs"][k]["name"])
+        if len(ls) != 1:
+            ctx.violation("qq|series-missing", "no line for input %d" % k, case)
+            continue
+        gx, gy = fig.xy(ls[0])
+        xs, ys, sl = _agg_pairs(ds, k, axis, agg or "mean")
+        c.compare_series(ctx, "qq", "x sorted per-slice %s of obs (-x %s) input %d" % (agg or "mean", axis, k), gx, _nansorted(xs), case)
+        c.compare_series(ctx, "qq", "y sorted per-slice %s of fcst (-x %s) input %d" % (agg or "mean", axis, k), gy, _nansorted(ys), case)
+        distinct = max(distinct, len(set(y for y in gy if y == y)))
+    c.done(ctx, "qq-x", argv, kind, F, distinct)
+
+
+def d_scatter_x(ctx, rng, ds, paths, kind):
+    c = _c16()
+    axis = rng.choice(["leadtime", "time", "location"])
+    argv = ["-m", "scatter", "-x", axis, "-simple"]
+    fig, case = c.run(ctx, paths, argv, ds)
+    if fig is None:
+        return
+    F = len(ds["inputs"])
+    distinct = 0
+    for k in range(F):
+        ls = fig.lines(0, ds["inputs"][k]["name"])
+        if len(ls) != 1:
+            ctx.violation("scatter|series-missing", "no series for input %d" % k, case)
+            continue
+        gx, gy = fig.xy(ls[0])
+        xs, ys, sl = _agg_pairs(ds, k, axis)
+        c.compare_series(ctx, "scatter", "x mean obs per slice (-x %s) input %d" % (axis, k), gx, xs, case)
+        c.compare_series(ctx, "scatter", "y mean fcst per slice (-x %s) input %d" % (axis, k), gy, ys, case)
+        distinct = max(distinct, len(set(y for y in gy if y == y)))
+    c.done(ctx, "scatter-x", argv, kind, F, distinct)
+
+
+def d_taylor_x(ctx, rng, ds, paths, kind):
+    """taylor with -x: one marker per slice, normalised by the slice's obs standard deviation"""
+    c = _c16()
+    axis = rng.choice(["leadtime", "location", "time"])
+    argv = ["-m", "taylor", "-x", axis]
+    fig, case = c.run(ctx, paths, argv, ds)
+    if fig is None:
+        return
+    F = len(ds["inputs"])
+    distinct = 0
+    for k in range(F):
+        ls = fig.lines(0, ds["inputs"][k]["name"])
+        if len(ls) != 1:
+            ctx.violation("taylor|series-missing", "no markers for input %d" % k, case)
+            continue
+        gx, gy = fig.xy(ls[0])
+        sl = refmodel.slices(ds, k, [("obs",), ("fcst",)], axis)
+        if len(sl) < 2:
+            continue
+        wx, wy = [], []
+        for lab, cs in sl:
+            o = [x[0] for x in cs]
+            f = [x[1] for x in cs]
+            r = refmetrics.pearson(o, f) if len(cs) >= 2 else NAN
+            so, sf = (refmetrics.pstd(o), refmetrics.pstd(f)) if cs else (NAN, NAN)
+            if cs and so > 0 and r == r:
+                wx.append(sf / so * r)
+                wy.append(sf / so * math.sqrt(max(0.0, 1 - r * r)))
+            else:
+                wx.append(NAN)
+                wy.append(NAN)
+        ok_idx = [i for i, v in enumerate(wx) if v == v]
+        # undefined slices (no data, constant series) are not compared: NaN, inf or 0 may be drawn there
+        c.compare_series(ctx, "taylor", "x normalised std * corr per slice (-x %s) input %d" % (axis, k), [gx[i] for i in ok_idx if i < len(gx)],
+                         [wx[i] for i in ok_idx], case, 1e-5, 1e-6)
+        c.compare_series(ctx, "taylor", "y normalised std * sqrt(1-corr^2) per slice input %d" % k, [gy[i] for i in ok_idx if i < len(gy)],
+                         [wy[i] for i in ok_idx], case, 1e-4, 1e-5)
+        distinct = max(distinct, len(ok_idx))
+    c.done(ctx, "taylor-x", argv, kind, F, distinct)
+
+
+def d_performance_x(ctx, rng, ds, paths, kind):
+    c = _c16()
+    axis = rng.choice(["leadtime", "location"])
+    t = c._thresholds(rng, ds, 3)[1]
+    b = rng.choice(["above", "below="])
+    argv = ["-m", "performance", "-r", gen.fnum(t), "-b", b, "-x", axis, "-simple"]
+    fig, case = c.run(ctx, paths, argv, ds)
+    if fig is None:
+        return
+    F = len(ds["inputs"])
+    distinct = 0
+    for k in range(F):
+        ls = fig.lines(0, ds["inputs"][k]["name"])
+        if len(ls) != 1:
+            ctx.violation("performance|series-missing", "no markers for input %d" % k, case)
+            continue
+        gx, gy = fig.xy(ls[0])
+        sl = refmodel.slices(ds, k, [("obs",), ("fcst",)], axis)
+        wx, wy = [], []
+        for lab, cs in sl:
+            tab = c._table([tuple(x) for x in cs], b, t)
+            far = refmetrics.categorical("far", *tab)
+            wx.append(1 - far if far == far else NAN)
+            wy.append(refmetrics.categorical("hit", *tab))
+        c.compare_series(ctx, "performance", "success ratio per slice (-x %s) input %d" % (axis, k), gx, wx, case)
+        c.compare_series(ctx, "performance", "POD per slice (-x %s) input %d" % (axis, k), gy, wy, case)
+        distinct = max(distinct, len(set(y for y in gy if y == y)))
+    c.done(ctx, "performance-x", argv, kind, F, distinct)
+
+
+DIAGRAMS.update({"qq-x": d_qq_x, "scatter-x": d_scatter_x, "taylor-x": d_taylor_x, "performance-x": d_performance_x})
